@@ -377,18 +377,18 @@ pub fn run(mut run: Run) -> ! {
     run.isolate = true;
     run.case_timeout_s = 30.0;
     let quick = run.quick();
-    let depth = if quick { 1 } else { 2 };
+    let depth = if quick { 2 } else { 3 };
     let ncores = crate::props::c01::cores().len();
     run.rule = format!("generator-AST models over bounded declarations (objective family: min/max of {ncores} cores in every chain of <= {depth} contexts x 4 declaration sets x 5 side-constraint sets; constraint family: the C01 core-in-context constraints with bounded declarations and objective max x / satisfy) are rendered to source TEXT in 3 spelling classes (keywords with explicit operators; symbolic aliases && || ! -> <-> with implicit multiplication and 'subject to'; fractional literals moved into where-constants with named rows and all/any blocks; a sum of n terms divided by n is written as an avg block in the first and third class) and solved with RoocSolver::try_new(text).solve_using(auto_solver); judged by an independent interpreter of the AST (exact optimum over the discrete domains x breakpoints of the continuous variable); distinct = source texts; non-trivial = a solution was returned");
     run.assume("reference interpreter = refsem evaluator + breakpoint enumeration: a piecewise-linear objective over a closed bounded piecewise-linear set attains its optimum at a breakpoint; at most one continuous variable per model; tolerance 1e-6");
-    let n2 = c02::family_size_pub(depth, quick);
+    let n2 = c02::family_size_pub(depth.min(2), false);
     run.family("O-objective-texts", n2, move |i, l| {
-        let c = c02::family_pub(i, depth, quick);
+        let c = c02::family_pub(i, depth.min(2), false);
         check_case(&c, l);
     });
-    let na = family_a_size(depth, quick);
+    let na = family_a_size(depth, false);
     run.family("A-constraint-texts", na, move |i, l| {
-        let mut c = family_a(i, depth, quick);
+        let mut c = family_a(i, depth, false);
         // give the feasibility models an objective on the continuous/integer variable
         if i % 2 == 0 {
             c.model.sense = Sense::Max;
